@@ -69,7 +69,7 @@ def build_model(rng, p_ia: float = 0.5) -> tuple[dict, dict]:  # noqa: ANN001
         spec["components"].append({"kind": "reaction", "name": "vtail", "fn": fl.ref(fl.gauss_tail), "args": [net.variables[0], "k1"], "stoich": {net.variables[0]: -1}})
     kout = [r["k"] for r in net.rxns if r["name"] == "vout"][0]
     A0, _ = net.Ab(net.params | {kout: 0.0})
-    info = {"ia": False, "params": [p for p in net.params], "variables": list(net.variables),
+    info = {"ia": False, "params": [p for p in net.params], "variables": list(net.variables), "kout_name": kout,
             "kout": kout if abs(np.linalg.det(A0)) < 1e-12 and kout != "k1" else None}
     if rng.random() < p_ia:
         # k1 := 0.5 + 0.7*x0(0)  (parameter computed from an initial value)
@@ -158,7 +158,7 @@ def oracle_row(kind: str, pristine, row: pd.Series, extra: dict):  # noqa: ANN00
     try:
         sim = Simulator(m, integrator=scanwrap.flaky_scipy)
         if k == "steady_state":
-            sim.simulate_to_steady_state()
+            sim.simulate_to_steady_state(rel_norm=bool(extra.get("rel_norm")))
         elif k == "time_course":
             sim.simulate_time_course(extra["time_points"])
         elif k == "protocol":
@@ -237,8 +237,14 @@ def run_case(case: dict) -> dict:
                 beyond_end = 1
             extra["time_points"] = np.array(sorted(pts_), dtype=float)
     inner = None
+    if "steady_state" in k and rng.random() < 0.4 and info["kout_name"] in pnames:
+        # the relative convergence criterion on a slowly draining network with large pools: the absolute criterion stops at
+        # another step there, so a run that was not told about `rel_norm` ends somewhere else
+        extra["rel_norm"] = True
+        table = table.copy()
+        table[info["kout_name"]] = [round(rng.uniform(0.02, 0.06), 4) for _ in range(len(table))]
     if k == "scan_steady_state":
-        sp = rng.choice(pnames)
+        sp = rng.choice([q for q in pnames if q != info["kout_name"] or "rel_norm" not in extra] or pnames)
         inner = pd.DataFrame({sp: [0.5, 1.5, 1.0]})
         table = table[[c for c in table.columns if c != sp] or list(table.columns)]
         if sp in table.columns:
@@ -264,7 +270,7 @@ def run_case(case: dict) -> dict:
     modes += [{"parallel": True, "cores": c} for c in cores]
     viols: list[dict] = []
     counters: dict[str, int] = {f"kind:{kind}": 1, "rows": len(table), "failing_rows_planned": len(fail_rows),
-                                "with_y0": int("y0" in extra), "model_with_a_silently_underflowing_rate_term": int(any(c["name"] == "vtail" for c in spec["components"])), "y0_and_a_table_column_name_the_same_variable": int(any(c in extra.get("y0", {}) for c in table.columns)), "time_points_beyond_the_protocol": int("beyond_end" in locals()), "rows_failing_in_a_later_protocol_step": int("late_failures" in locals()), "duplicate_row_labels": int(not table.index.is_unique), "column_overrides_assignment_defined_parameter": int(info["ia"] and "k1" in table.columns), "y0_overlaps_table_column": int(any(v in table.columns for v in extra.get("y0", {})))}
+                                "with_y0": int("y0" in extra), "steady_state_scans_with_the_relative_norm_on_a_slow_network": int("rel_norm" in extra), "model_with_a_silently_underflowing_rate_term": int(any(c["name"] == "vtail" for c in spec["components"])), "y0_and_a_table_column_name_the_same_variable": int(any(c in extra.get("y0", {}) for c in table.columns)), "time_points_beyond_the_protocol": int("beyond_end" in locals()), "rows_failing_in_a_later_protocol_step": int("late_failures" in locals()), "duplicate_row_labels": int(not table.index.is_unique), "column_overrides_assignment_defined_parameter": int(info["ia"] and "k1" in table.columns), "y0_overlaps_table_column": int(any(v in table.columns for v in extra.get("y0", {})))}
     ctx = {"kind": kind, "table": {"index": [str(i) for i in table.index], **{c: table[c].tolist() for c in table.columns}},
            "extra": {kk: (v.tolist() if hasattr(v, "tolist") else str(v)) for kk, v in extra.items()}, "ia_model": info["ia"], "spec": spec}
     # ---- oracle per row ------------------------------------------------------
